@@ -28,7 +28,7 @@ ASSUMPTIONS = [
     "float arms: reference is the IEEE operator of the Rust language (bit equality, NaN = NaN)",
     "termination not proved by Kani",
 ]
-NOT_UNDER_CONTRACT = ["Translator::translate_ / PatternTranslator (AST -> core)", "Compiler::compile_ slot allocation and jump patching (except the && / || blocks)", "upvalue capture by enter_closure, excess-argument unpacking on return",
+NOT_UNDER_CONTRACT = ["Translator::translate_ / PatternTranslator (AST -> core)", "Compiler::compile_ slot allocation and jump patching (except the && / || blocks)", "upvalue capture by enter_closure",
                       "the Closure/Function arms of do_call and enter_closure/enter_extern (the continuation of the call protocol is opaque)", "check/src/rename.rs", "check/src/implicits.rs", "parser/src/infix.rs reparse"]
 
 # instruction -> (operand kind, reference operator)
@@ -174,6 +174,8 @@ def obligations(tier):
         v("stack", "arm::MakeClosure", "run-time effect 1 - upvars; the closure captures exactly the top `upvars` values in order", T + "MakeClosure"),
         v("stack", "ExecuteContext::call_function_with_upvars", "the call protocol: exact application enters the callee on the stack as it is; partial application replaces function+arguments by ONE value holding exactly these arguments in order; over-application packs the LAST (args - required) arguments in order into one value parked directly below the function and enters the callee with the excess flag; enclosing frames untouched", "vm/src/thread.rs::ExecuteContext::call_function_with_upvars"),
         v("stack", "do_call::PartialApplication", "calling a partial application = calling its function with the stored arguments first, then the new ones, in order (then the protocol above)", "vm/src/thread.rs::do_call arm PartialApplication"),
+        v("stack", "ExecuteContext::exit_scope", "leaving a scope pops exactly the top frame (never a locked one) and makes the frame below current, values untouched", "vm/src/thread.rs::ExecuteContext::exit_scope"),
+        v("stack", "execute_::return", "function return: the function value and everything the callee had on the stack are replaced by the result; with excess arguments the parked record is consumed too and the RESULT is called with exactly its fields in order", "vm/src/thread.rs::execute_ (statements after the instruction loop)"),
         v("stack", "StackFrame::index_from", "frame[start..] is the frame view from start", "vm/src/stack.rs::<StackFrame as Index<RangeFrom<VmIndex>>>::index"),
     ]
     obs += [
